@@ -19,6 +19,10 @@ import props  # noqa: E402
 import smt_run  # noqa: E402
 
 
+DEFAULT_STUBS = {"alloc::fmt::format", "tracing::level_filters::LevelFilter::current", "tracing::Event::dispatch",
+                 "tracing::__macro_support::__is_enabled", "tracing::callsite::DefaultCallsite::interest"}
+
+
 def log(msg):
     print(msg, flush=True)
 
@@ -172,7 +176,16 @@ def classify(r):
         return "error"  # OOM, crash, signal
     if r["kani_status"] is None:
         return "missing"
+    # CBMC's --nan-check flags float operations that may yield NaN; Rust floats do not trap, so
+    # these are not panics of the code under check and are not part of any property here.
+    r["failed_checks"] = [c for c in r["failed_checks"] if not c["msg"].startswith("NaN on ")]
     fc = [c["msg"] for c in r["failed_checks"]]
+    if r["kani_status"] == "FAILED" and not fc and r.get("nan_only") is None and not r["timed_out"] \
+            and r["cbmc_status"] is None and not r["cbmc_failed"] and r["checks_failed"]:
+        # only NaN checks failed
+        if r["covers_total"] not in (None, 0) and r["covers_sat"] == r["covers_total"]:
+            return "pass"
+        return "vacuous"
     if any("unwinding assertion" in m for m in fc):
         return "unwind"
     if r["kani_status"] == "SUCCESSFUL":
@@ -372,7 +385,7 @@ def run_property(pid, tier, seed, jobs, only=None, write_evidence=True):
     run = run_kani(filters, jobs, harness_timeout, mem_gb, logname=f"{pid}-{tier}.log")
     results = run["results"]
     meta = collect_metadata()
-    smt = smt_run.run_for(pid, tier) if hasattr(smt_run, "run_for") else {"queries": []}
+    smt = smt_run.run_for(pid, tier) if not only else {"queries": []}
 
     findings, fixed = load_known()
     exit_code = 0
@@ -407,7 +420,16 @@ def run_property(pid, tier, seed, jobs, only=None, write_evidence=True):
             if unknown:
                 log(f"[{pid}] {name}: FAILED checks {[c['msg'] for c in unknown]} - extracting counterexample")
                 path = get_counterexample(pid, name, mem_gb, harness_timeout)
-                if path is None:
+                extra_stubs = [x for x in m.get("stubs", []) if x not in DEFAULT_STUBS]
+                if path is not None and extra_stubs:
+                    # Kani's concrete playback does not apply stubs natively, so a harness that replaces
+                    # environment functions by their contract cannot be re-executed outside the solver.
+                    # The solver counterexample (input values in the replay file) is reported as is.
+                    sample["replay"] = {"path": path, "native": "not applicable: harness stubs " + ", ".join(extra_stubs)}
+                    violations += 1
+                    log(f"VIOLATION property={pid} replay={path}")
+                    log(f"  harness={name} failed={[c['msg'] for c in unknown]} (solver counterexample; native replay not applicable: stubbed {extra_stubs})")
+                elif path is None:
                     log(f"[{pid}] {name}: could not obtain a concrete counterexample")
                     inconclusive.append(name)
                     sample["replay"] = "no counterexample"
